@@ -7,9 +7,11 @@ KEY_CANCEL = "mpsc/wake_sender/lost-wake/sender-dropped-with-unfinished-send"
 
 
 class C16(vlib.Spec):
-    model_vo = ["theories/Chan/ModelMpscChk.vo"]
+    model_vo = ["theories/Chan/ModelMpscChk.vo"]  # definitions only: runs even if a proof breaks
     props_vo = "theories/Props/C16.vo"
-    theorems = ["C16_no_strand_refuted"]
+    theorems = ["C16_fifo_exactly_once", "C16_history_faithful", "C16_closure_consistent",
+                "C16_no_strand", "C16_waiting_implies_runnable", "C16_no_strand_refuted",
+                "C16_no_strand_spurious_refuted", "C16_no_strand_cancel_refuted"]
     crate, group, binary = "h_chan", "dfir", "h_chan"
     imports = ("From Coq Require Import List NArith.\nImport ListNotations.\n"
                "From HV Require Import Chan.Base Chan.ModelMpsc Chan.ModelMpscChk.")
